@@ -225,16 +225,15 @@ type c17GenWin struct {
 func genC17Windows(t *rapid.T, n int) []c17GenWin {
 	out := make([]c17GenWin, n)
 	for i := range out {
-		fromH := rapid.IntRange(0, 6).Draw(t, "from_h")
-		from := c17Base.Add(time.Duration(fromH) * time.Hour)
-		if rapid.IntRange(0, 5).Draw(t, "from_frac") == 0 {
+		from := c17Base.Add(time.Duration(pRange(t, "from_h", 0, 6)) * time.Hour)
+		if pChance(t, "from_frac", 1, 6) {
 			from = from.Add(500 * time.Millisecond)
 		}
 		out[i].from = from
-		if rapid.IntRange(0, 2).Draw(t, "has_until") != 0 {
+		if pChance(t, "has_until", 2, 3) {
 			out[i].hasUntil = true
-			out[i].until = from.Add(time.Duration(rapid.IntRange(1, 6).Draw(t, "len_h")) * time.Hour)
-			if rapid.IntRange(0, 5).Draw(t, "until_frac") == 0 {
+			out[i].until = from.Add(time.Duration(pRange(t, "len_h", 1, 6)) * time.Hour)
+			if pChance(t, "until_frac", 1, 6) {
 				out[i].until = out[i].until.Add(500 * time.Millisecond)
 			}
 		}
@@ -251,54 +250,59 @@ func genC17Instant(t *rapid.T, ws []c17GenWin) time.Time {
 		}
 	}
 	bounds = append(bounds, c17Base.Add(-time.Hour), c17Base.Add(20*time.Hour))
-	b := rapid.SampledFrom(bounds).Draw(t, "boundary")
-	return b.Add(rapid.SampledFrom(c17Deltas).Draw(t, "delta"))
+	return pFrom(t, "boundary", bounds).Add(pFrom(t, "delta", c17Deltas))
 }
 
 func genC17Case() *rapid.Generator[C17Case] {
 	return rapid.Custom(func(t *rapid.T) C17Case {
 		var c C17Case
-		c.URL = rapid.SampledFrom(c17URLs).Draw(t, "url")
-		c.Method = rapid.SampledFrom([]string{"", "", "POST", "PUT"}).Draw(t, "method")
+		c.URL = pFrom(t, "url", c17URLs)
+		c.Method = pFrom(t, "method", []string{"", "", "POST", "PUT"})
 		c.Body = rapid.SliceOfN(rapid.Byte(), 0, 48).Draw(t, "body")
-		c.Forged = rapid.IntRange(0, 4).Draw(t, "forged") == 0
-		if rapid.IntRange(0, 3).Draw(t, "custom_hdr") == 0 {
-			c.SigHdr = rapid.SampledFrom(c17Hdrs).Draw(t, "sig_hdr")
-			c.TsHdr = rapid.SampledFrom(c17Hdrs).Draw(t, "ts_hdr")
+		c.Forged = pChance(t, "forged", 1, 5)
+		if pChance(t, "custom_hdr", 1, 4) {
+			c.SigHdr = pFrom(t, "sig_hdr", c17Hdrs)
+			c.TsHdr = pFrom(t, "ts_hdr", c17Hdrs)
 		}
-		n := rapid.IntRange(1, 5).Draw(t, "nvers")
+		n := pRange(t, "nvers", 1, 5)
 		ws := genC17Windows(t, n)
-		ids := rapid.SliceOfNDistinct(rapid.SampledFrom(c17IDs), n, n, rapid.ID[string]).Draw(t, "ids")
+		off := pIdx(t, "id_off", len(c17IDs))
+		step := pFrom(t, "id_step", []int{1, 3, 5, 7})
 		for i := 0; i < n; i++ {
-			v := C17Ver{ID: ids[i], Src: "raw", Val: fmt.Sprintf("k%d-%s", i, rapid.SampledFrom([]string{"secret", "pässwörd 1", "s3cr3t!$%&/()=?", "x", "0123456789abcdef0123456789abcdef0123456789abcdef0123456789abcdef-longer-than-a-sha256-block"}).Draw(t, "val"))}
-			if rapid.IntRange(0, 3).Draw(t, "env") == 0 {
+			v := C17Ver{ID: c17IDs[(off+i*step)%len(c17IDs)], Src: "raw", Val: fmt.Sprintf("k%d-%s", i, pFrom(t, "val", c17Vals))}
+			if pChance(t, "env", 1, 4) {
 				v.Src = "env"
-				v.EnvSet = rapid.IntRange(0, 3).Draw(t, "env_set") != 0
+				v.EnvSet = !pChance(t, "env_unset", 1, 4)
 			}
-			v.From = c17FormatTime(ws[i].from, rapid.SampledFrom(c17Zones).Draw(t, "from_zone"))
+			v.From = c17FormatTime(ws[i].from, pFrom(t, "from_zone", c17Zones))
 			if ws[i].hasUntil {
-				v.Until = c17FormatTime(ws[i].until, rapid.SampledFrom(c17Zones).Draw(t, "until_zone"))
+				v.Until = c17FormatTime(ws[i].until, pFrom(t, "until_zone", c17Zones))
 			}
 			c.Vers = append(c.Vers, v)
 		}
-		switch rapid.IntRange(0, 11).Draw(t, "direct") {
-		case 0:
+		switch pIdx(t, "direct", 12) {
+		case 10:
 			c.Direct = "raw"
-		case 1:
-			c.Direct = rapid.SampledFrom([]string{"env", "env-unset"}).Draw(t, "direct_env")
+		case 11:
+			c.Direct = pFrom(t, "direct_env", []string{"env", "env-unset"})
 		default:
-			nrefs := rapid.IntRange(1, n).Draw(t, "nrefs")
-			if rapid.Bool().Draw(t, "all_refs") {
-				nrefs = n
+			nrefs := n
+			if pChance(t, "subset_refs", 1, 3) {
+				nrefs = pRange(t, "nrefs", 1, n)
 			}
 			c.Refs = rapid.Permutation(seqInts(n)).Draw(t, "refs")[:nrefs]
-			c.OneLn = rapid.Bool().Draw(t, "one_line")
-			c.Sel = rapid.SampledFrom([]string{"", "newest_valid", "oldest_valid", "oldest_valid", "OLDEST_VALID", "latest"}).Draw(t, "sel")
+			c.OneLn = pChance(t, "one_line", 1, 2)
+			c.Sel = pFrom(t, "sel", c17Sels)
 		}
 		c.Now = genC17Instant(t, ws).Format(time.RFC3339Nano)
 		return c
 	})
 }
+
+var (
+	c17Vals = []string{"secret", "pässwörd 1", "s3cr3t!$%&/()=?", "x", "0123456789abcdef0123456789abcdef0123456789abcdef0123456789abcdef-longer-than-a-sha256-block"}
+	c17Sels = []string{"", "newest_valid", "oldest_valid", "oldest_valid", "newest_valid", "OLDEST_VALID", "oldest_valid", "", "oldest_valid", "newest_valid", "oldest_valid", "latest"}
+)
 
 func seqInts(n int) []int {
 	out := make([]int, n)
@@ -612,22 +616,23 @@ type C17SelCase struct {
 func genC17SelCase() *rapid.Generator[C17SelCase] {
 	return rapid.Custom(func(t *rapid.T) C17SelCase {
 		var c C17SelCase
-		n := rapid.IntRange(1, 5).Draw(t, "n")
-		ids := rapid.SliceOfNDistinct(rapid.SampledFrom(c17IDs), n, n, rapid.ID[string]).Draw(t, "ids")
+		n := pRange(t, "n", 1, 5)
+		off := pIdx(t, "id_off", len(c17IDs))
+		step := pFrom(t, "id_step", []int{1, 3, 5, 7})
 		var bounds []int64
 		for i := 0; i < n; i++ {
-			from := int64(rapid.IntRange(1, 5).Draw(t, "from_s"))*int64(time.Second) + int64(rapid.SampledFrom([]int{0, 0, 0, 1, -1, 500000000}).Draw(t, "from_ns"))
-			v := C17SelVer{ID: ids[i], FromNs: from}
-			if rapid.IntRange(0, 2).Draw(t, "has_until") != 0 {
-				v.UntilNs = from + int64(rapid.IntRange(1, 4).Draw(t, "len_s"))*int64(time.Second) + int64(rapid.SampledFrom([]int{0, 0, 0, 1, -1}).Draw(t, "until_ns"))
+			from := int64(pRange(t, "from_s", 1, 5))*int64(time.Second) + pFrom(t, "from_ns", []int64{0, 0, 0, 1, -1, 500000000})
+			v := C17SelVer{ID: c17IDs[(off+i*step)%len(c17IDs)], FromNs: from}
+			if pChance(t, "has_until", 2, 3) {
+				v.UntilNs = from + int64(pRange(t, "len_s", 1, 4))*int64(time.Second) + pFrom(t, "until_ns", []int64{0, 0, 0, 1, -1})
 				bounds = append(bounds, v.UntilNs)
 			}
 			bounds = append(bounds, from)
 			c.Vers = append(c.Vers, v)
 		}
 		bounds = append(bounds, 0, int64(20*time.Second))
-		c.AtNs = rapid.SampledFrom(bounds).Draw(t, "bound") + int64(rapid.SampledFrom([]int{0, 0, 1, -1, 1000000000, -1000000000, 2, -2}).Draw(t, "delta"))
-		c.Sel = rapid.SampledFrom([]string{"", "newest_valid", "oldest_valid", "oldest_valid"}).Draw(t, "sel")
+		c.AtNs = pFrom(t, "bound", bounds) + pFrom(t, "delta", []int64{0, 0, 1, -1, 1000000000, -1000000000, 2, -2})
+		c.Sel = pFrom(t, "sel", []string{"", "newest_valid", "oldest_valid", "oldest_valid"})
 		return c
 	})
 }
